@@ -169,3 +169,81 @@ def temp_file_native():
             return {"file_name_length": len(base), "temp_name_suffix": repr(suf), "second_call_suffix": repr(os.path.basename(t2)[len(base):]),
                     "problem": "temporary sibling name is not <name>.<fresh random suffix>"}
     return {}
+
+
+def reflink_protocol(rep, ctx):
+    """reflink::linux_reflink (the `dedupe` command on Linux): the file is first cloned to a temporary sibling (backup), only then
+    overwritten with a clone of the retained file; if the overwrite fails the backup is renamed back (a warning if that fails too) and
+    the error is returned; the backup is removed only after a successful overwrite (or when the backup itself could not be made)."""
+    prog = ctx.lib
+    cands = [f for n, f in prog.fns.items() if re.search(r"(^|::)linux_reflink$", n)]
+    o = Obligation("linux_reflink: backup clone -> overwrite -> (restore the backup on failure | remove it on success); the error is returned",
+                   "E2 mirsym/z3", [], "loop-free; reflink_overwrite, FsCommand::{temp_file, remove, unsafe_rename} are leaves")
+    o.key = "reflink:protocol"
+    if len(cands) != 1:
+        o.verdict, o.detail = "inconclusive", "linux_reflink: %d candidates" % len(cands)
+        rep.add(o)
+        return
+    f = cands[0]
+    inl = lambda c, t: oblig.defined_in(prog, t, "reflink.rs") and not re.search(r"reflink_overwrite|restore_metadata|get_xattrs|restore_xattrs", t.name)
+    eng = oblig.engine(prog, inline=inl, extra=dict(optsum.SUMMARIES))
+    ps = eng.run(f, args=[Lazy("src", f.args[0][1]), Lazy("dest", f.args[1][1]), Lazy("log", f.args[2][1])])
+
+    def where(p, st, v):
+        """'dest' / 'src' / 'tmp' / other"""
+        for _ in range(6):
+            cn = summaries.canon(eng, st, v)
+            if re.match(r"&?dest\*?\.", cn):
+                return "dest"
+            if re.match(r"&?src\*?\.", cn):
+                return "src"
+            prod = [ev for ev in p.events if ev.kind == "call" and ev.ret is not None and summaries.canon(eng, st, ev.ret) == cn.lstrip("&")]
+            if not prod:
+                return cn
+            if re.search(r"temp_file$", prod[0].callee):
+                return "tmp" if where(p, st, prod[0].args[0]) == "dest" else "tmp?"
+            if not prod[0].args:
+                return cn
+            v = prod[0].args[0]
+        return "?"
+
+    def failed(ev):
+        return z3.BitVec(mirsym.sanitize(ev.ret.name + "#d"), 64) == 1
+
+    def prop(p):
+        if p.status != "return" or not isinstance(p.result, EnumV):
+            return z3.BoolVal(False)
+        st = mirsym.State()
+        st.mem, st.pc = p.mem, list(p.pc)
+        ro = called(p, r"(^|::)reflink_overwrite$")
+        rm = called(p, r"FsCommand::remove$")
+        rn = called(p, r"FsCommand::unsafe_rename$")
+        other = called(p, r"FsCommand::(hardlink|symlink|unsafe_copy)$|fs::(remove_file|rename|copy|write)$")
+        warn = called(p, r"::warn$")
+        if not ro or other or not all(isinstance(e.ret, Lazy) for e in ro + rm + rn):
+            return z3.BoolVal(False)
+        conj = []
+        # 1. backup: dest -> tmp
+        conj.append(z3.BoolVal(where(p, st, ro[0].args[0]) == "dest" and where(p, st, ro[0].args[1]) == "tmp"))
+        is_err = z3.BoolVal(p.result.variant == "Err")
+        if len(ro) == 1:
+            # the backup failed (otherwise the overwrite would have been attempted)
+            conj.append(failed(ro[0]))
+            conj.append(is_err)
+            conj.append(z3.BoolVal(not rn and len(rm) <= 1 and all(where(p, st, e.args[0]) == "tmp" for e in rm)))
+        elif len(ro) == 2:
+            conj.append(z3.Not(failed(ro[0])))
+            conj.append(z3.BoolVal(where(p, st, ro[1].args[0]) == "src" and where(p, st, ro[1].args[1]) == "dest"))
+            ok2 = z3.Not(failed(ro[1]))
+            conj.append(is_err == failed(ro[1]))
+            # success: the backup is removed, nothing is renamed; failure: the backup is renamed back, not removed
+            conj.append(z3.Implies(ok2, z3.BoolVal(len(rm) == 1 and not rn and where(p, st, rm[0].args[0]) == "tmp" if rm else False)))
+            conj.append(z3.Implies(failed(ro[1]), z3.BoolVal(len(rn) == 1 and not rm and where(p, st, rn[0].args[0]) == "tmp" and where(p, st, rn[0].args[1]) == "dest" if rn else False)))
+            if rn:
+                conj.append(z3.Implies(failed(rn[0]), z3.BoolVal(bool(warn))))
+        else:
+            return z3.BoolVal(False)
+        return z3.And(*conj)
+    o2 = oblig.check_paths(eng, ps, o.name, prop, oblig.fnames(eng), key=o.key)
+    o2.bounds = o.bounds
+    rep.add(o2)
